@@ -235,3 +235,84 @@ def run_mutation(funcs=None, jobs=16, out=None, quiet=False):
     if out:
         Path(out).write_text(json.dumps({"summary": summary, "survivors": surv, "killed": killed}, indent=1))
     return summary, surv, killed
+
+
+def _worker_pid(args):
+    modrel, modname, qual, idx, pid = args
+    root = repo_root()
+    path = root / modrel
+    text = path.read_text()
+    tree = ast.parse(text)
+    fn = find_fn(tree, qual)
+    if fn is None:
+        return None
+    try:
+        newsrc, desc, line = apply_mutation(text, tree, fn, idx)
+        compile(newsrc, str(path), "exec")
+    except Exception:
+        return None
+    from .cli import run_check
+
+    try:
+        t = Tree(root, overrides={modrel: newsrc})
+    except Exception:
+        return {"func": f"{modname}:{qual}", "desc": desc, "line": line, "exit": 2}
+    buf = io.StringIO()
+    with contextlib.redirect_stdout(buf):
+        chk, code = run_check(pid, "quick", 0, write=False, tree=t, quiet=True)
+    return {"func": f"{modname}:{qual}", "desc": desc, "line": line, "exit": code, "rules": sorted({f.rule for f in chk.findings})[:3]}
+
+
+def run_property_mutation(pid: str, jobs=16, cap=240, seed=0):
+    """Sensitivity of one property's rules: single-point mutants of the functions its rules consult (recorded by tracing Tree.func),
+    each analysed in memory by that property's check alone.  Informational: written to evidence/mutation-<pid>.json"""
+    import random
+    from .cli import run_check
+
+    t0 = time.time()
+    base = Tree()
+    consulted = set()
+    orig = base.func
+
+    def traced(modname, qual):
+        consulted.add(f"{modname}:{qual}")
+        return orig(modname, qual)
+
+    base.func = traced
+    buf = io.StringIO()
+    with contextlib.redirect_stdout(buf):
+        run_check(pid, "quick", 0, write=False, tree=base, quiet=True)
+    anchors = {f"{m}:{q}" for m, q in ANCHORS}
+    funcs = sorted(consulted & anchors)
+    work = []
+    for key in funcs:
+        f = base.funcs.get(key)
+        if f is None:
+            continue
+        modname, qual = key.split(":", 1)
+        text = f.module.path.read_text()
+        fn = find_fn(ast.parse(text), qual)
+        if fn is None:
+            continue
+        for i in range(len(mutation_points(fn))):
+            work.append((f.module.rel, modname, qual, i, pid))
+    total = len(work)
+    if total > cap:
+        random.Random(seed).shuffle(work)
+        work = sorted(work[:cap])
+    res = []
+    if work:
+        with ProcessPoolExecutor(max_workers=jobs) as ex:
+            res = [r for r in ex.map(_worker_pid, work, chunksize=2) if r is not None]
+    reported = [r for r in res if r["exit"] == 1]
+    undecided = [r for r in res if r["exit"] == 2]
+    summary = {"property": pid, "functions_consulted_and_mutated": funcs, "mutation_points": total, "mutants_analysed": len(res), "reported_as_violation": len(reported),
+               "analysis_error": len(undecided), "silent": len(res) - len(reported) - len(undecided), "wall_s": round(time.time() - t0, 1),
+               "note": "sensitivity of the rules, not a verdict on /repo: a silent mutant is equivalent, irrelevant to this property (logging, messages, other properties' clauses), "
+                       "fails the test suite anyway, or shows a clause no rule decides",
+               "silent_mutants": [f"{r['func']} L{r['line']} {r['desc'][:90]}" for r in res if r["exit"] == 0][:400]}
+    evd = Path(os.environ.get("VERIF_EVIDENCE_DIR", Path(__file__).resolve().parent.parent / "evidence"))
+    evd.mkdir(exist_ok=True)
+    (evd / f"mutation-{pid}.json").write_text(json.dumps(summary, indent=1))
+    print(f"mutation sensitivity: {len(reported)} of {len(res)} mutants of {len(funcs)} consulted functions are reported by {pid} ({len(undecided)} analysis errors, {summary['wall_s']}s)")
+    return summary
